@@ -111,6 +111,87 @@ class Sim:
         return s
 
 
+def first_illegal(lines, upto):
+    """index (into the op lines) of the first op the generator would not have emitted, or None.  Used by the oracle
+    only to decide whether a *hang* counts: a blocking access may legitimately never return when every source is in
+    flight and nobody completes them (such inputs only arise when a failing case is shrunk)."""
+    hdr = lines[0].split()
+    try:
+        scripts = [parse_script(t) for t in hdr[5:]]
+        if len(scripts) != int(hdr[4]):
+            return 0
+        sim = Sim(scripts)
+        pending = False
+
+        def res_ok(k):
+            return 0 <= k < sim.n and sim.st[k] == "inflight"
+
+        for i, op in enumerate(lines[1:upto + 2]):
+            w = op.split()
+            o = w[0]
+            if o in ("next", "inext"):
+                if pending or sim.ag == "failed":
+                    return i
+                r, _ = sim.access()
+                if r == "pending":
+                    return i
+            elif o in ("fnext", "cnext"):
+                if pending or sim.ag == "failed" or (o == "fnext" and sim.ag == "done"):
+                    return i
+                r, _ = sim.access()
+                pending = r == "pending"
+            elif o == "batch":
+                if pending:
+                    return i
+                for j, acc in enumerate(w[1:]):
+                    if sim.ag in ("failed",) or pending:
+                        return i
+                    r, _ = sim.access()
+                    if r == "pending":
+                        if acc[0] not in "cf" or j != len(w) - 2:
+                            return i
+                        pending = True
+            elif o == "bnext":
+                if pending or sim.ag in ("done", "failed") or sim.q:
+                    return i
+                r, pushed = sim.access()
+                if r != "pending" or pushed:
+                    return i
+                out = "pending"
+                for k in map(int, w[2:]):
+                    if not res_ok(k):
+                        return i
+                    x = sim.resolve(k)
+                    if out == "pending" and x is not None:
+                        out = x
+                if out == "pending":
+                    return i
+            elif o in ("res", "tres"):
+                k = int(w[1])
+                if not res_ok(k):
+                    return i
+                x = sim.resolve(k)
+                if pending and x is not None and x != "pending":
+                    pending = False
+            elif o == "destroy":
+                if pending:
+                    return i
+                for k in map(int, w[1:]):
+                    if not res_ok(k):
+                        return i
+                    sim.resolve(k)
+                if sim.inflight():
+                    return i
+                return None
+            elif o == "end":
+                return None
+            else:
+                return i
+    except Exception:
+        return 0
+    return None
+
+
 def gen_script(rng, kind):
     """kind: sync-finite, async-finite, sync-inf, async-inf ; finite ones may throw at the end"""
     pa = 0.0 if kind.startswith("sync") else rng.choice([0.25, 0.5])
@@ -398,11 +479,18 @@ class AggSuite(Suite):
             elif r == "pending":
                 pend = True
 
-        for op, line in zip(ops, out):
+        for opi, (op, line) in enumerate(zip(ops, out)):
             w = op.split()
             head, evs = parse_line(line)
             if not head or head[0] == "bad-op":
                 continue
+            if "hang" in head[1:]:
+                # the harness's watchdog: the operation never returned.  Counts when the input was one the sources
+                # could serve (see first_illegal); then the aggregate failed to deliver / to end / to be destroyed
+                if first_illegal(case["lines"], opi) is None:
+                    msgs.append("hang: `%s` never returned although the sources could serve it (no value delivered, "
+                                "aggregate neither ended nor was destroyed)" % op)
+                break
             p = parse_p(head)
             if p is not None and len(p) == n:
                 pos = p
@@ -532,8 +620,8 @@ class StressSuite(Suite):
         if w[0] != "stress" or len(scripts) != n:
             return msgs
         limit = int(w[1])
-        if not out or not out[0].startswith("stress "):
-            return ["hang: no result line"]
+        if not out or not out[0].startswith("stress ") or "hang" in out[0].split():
+            return ["hang: the consumer never got its values although the sources were being completed"]
         f = dict(FACT_RE.findall(out[0]))
         num = lambda k: int(f.get(k, "0"))
         if num("dup"):
@@ -563,7 +651,9 @@ class StressSuite(Suite):
                 msgs.append("exception: the reported exception was not thrown by any source")
         for l in out[1:]:
             ws = l.split()
-            if ws and ws[0] in ("sdestroy", "end") and len(ws) >= 3 and (ws[1] != "frames=0" or ws[2] != "guards=0"):
+            if ws and ws[0] in ("sdestroy", "end") and "hang" in ws[1:]:
+                msgs.append("hang: destruction never returned")
+            elif ws and ws[0] in ("sdestroy", "end") and len(ws) >= 3 and (ws[1] != "frames=0" or ws[2] != "guards=0"):
                 msgs.append("leak: after destruction %s %s" % (ws[1], ws[2]))
         return msgs
 
